@@ -344,17 +344,24 @@ func runLoopCase(ci interface{}, rec *pbt.Rec) *pbt.Failure {
 		}
 		return out, pow
 	}
+	// every bonded validator's orchestrator claims, in order, the contract events it has not claimed yet
+	// (a validator that was unbonded when an event came in catches up once it is bonded again)
+	var allEvents []mtypes.ExternalEvent
+	claimed := map[int]int{}
 	feed := func() {
-		for _, ev := range w.pending {
-			any, _ := mtypes.PackEvent(ev)
-			for vi, v := range h.Staking.Vals {
-				if v.Bonded {
-					h.Deliver(&mtypes.MsgSubmitExternalEvent{Event: any, Signer: sdk.AccAddress(sim.ValAddr(vi)).String(), ChainId: "ethereum"})
-				}
-			}
-			w.seenEv++
-		}
+		allEvents = append(allEvents, w.pending...)
+		w.seenEv += uint64(len(w.pending))
 		w.pending = nil
+		for vi, v := range h.Staking.Vals {
+			if !v.Bonded {
+				continue
+			}
+			for claimed[vi] < len(allEvents) {
+				any, _ := mtypes.PackEvent(allEvents[claimed[vi]])
+				h.Deliver(&mtypes.MsgSubmitExternalEvent{Event: any, Signer: sdk.AccAddress(sim.ValAddr(vi)).String(), ChainId: "ethereum"})
+				claimed[vi]++
+			}
+		}
 	}
 	inStep := func() *pbt.Failure {
 		// after everything emitted so far was fed back and a block has passed, hub and contract agree
